@@ -26,6 +26,11 @@ CLAIMED = {
     technique='ast who-flows-where analysis over every Tape(...) construction and run_tape call site, abstract evaluation of set_tape_flags under aliasing, path-count dataflow for plugin runs, who-may-write rule for flags, guard dominance',
     text='For every sub-tape construction site and run_tape call site in the VM the check proves that contracts, plugins, call limits and the flag map of the parent govern the nested execution (including an abstract evaluation of set_tape_flags under the alias relation between sub-tape flags, additional_flags and the parent map), that signature-extension plugins run exactly once and first in each signature-related handler, that only the flag instructions write flags, and that evaluation of stack data sits behind the disallow guard. Complete for these configuration kinds over all nesting contexts because every context is one of the enumerated sites.',
     note='Trusted: CPython ast, tsa analyser. Flag keys assumed str/int. Known finding: SET_FLAG/UNSET_FLAG use bytes keys (listed in known_findings.json).'),
+ 'C12': dict(
+    level='other', ref='DESIGN.md 4 C12',
+    technique='ast termination argument (read-size kind classification per match arm, loop-progress and well-founded-recursion rules) plus sibling cross-check decompiler arms vs VM handler tape-read shapes and formatter/domain classification against the compiler helpers',
+    text='Termination of decompile_script is decided as a structural proof on the current source: every read size in every arm (and in the generated soft-fork handler) is a non-negative constant or unsigned decode, every loop iteration consumes at least one byte, recursion is only on bytes read from the same tape, and Tape.read is bounded - hence the pointer strictly increases below len(script) and recursion is well founded. The round trip is decided only structurally: each arm reads exactly the operand shape its VM handler reads, operands reach the listing through injective formatters, and the printed domain is accepted by the compiler helper. Byte equality for every program is not decided.',
+    note='Trusted: CPython ast, tsa analyser. Out of scope: decompiler handlers registered by third parties. Known finding: DIV_INT/MOD_INT lossy print.'),
  'C01': dict(
     level='other', ref='DESIGN.md 4 C01',
     technique='ast typestate + dominator analysis (return-flag state machine over the CFG of run_auth_scripts/run_tape; try/except coverage; guard dominance)',
